@@ -771,31 +771,32 @@ void varintBitmapAddRange(varintBitmap *vb, uint16_t min, uint16_t max) {
 
     uint32_t rangeSize = max - min;
 
-    /* For large ranges, use runs container */
-    if (rangeSize > VARINT_BITMAP_ARRAY_MAX) {
-        /* Convert to runs if beneficial */
-        if (vb->type == VARINT_BITMAP_ARRAY) {
-            free(vb->container.array.values);
-        } else if (vb->type == VARINT_BITMAP_BITMAP) {
-            free(vb->container.bitmap.bits);
-        }
-
-        vb->type = VARINT_BITMAP_RUNS;
-        vb->container.runs.numRuns = 1;
-        vb->container.runs.capacity = 1;
-        vb->container.runs.runs = malloc(2 * sizeof(uint16_t));
-        if (!vb->container.runs.runs) {
-            /* Out of memory - reset to empty array container */
-            vb->type = VARINT_BITMAP_ARRAY;
-            vb->cardinality = 0;
-            vb->container.array.values = NULL;
-            vb->container.array.capacity = 0;
+    /* For large ranges into an empty set, use runs container */
+    if (rangeSize > VARINT_BITMAP_ARRAY_MAX && vb->cardinality == 0) {
+        uint16_t *runs = malloc(2 * sizeof(uint16_t));
+        if (runs) {
+            /* Release whichever container currently holds the (empty) set */
+            switch (vb->type) {
+            case VARINT_BITMAP_ARRAY:
+                free(vb->container.array.values);
+                break;
+            case VARINT_BITMAP_BITMAP:
+                free(vb->container.bitmap.bits);
+                break;
+            case VARINT_BITMAP_RUNS:
+                free(vb->container.runs.runs);
+                break;
+            }
+            vb->type = VARINT_BITMAP_RUNS;
+            vb->container.runs.numRuns = 1;
+            vb->container.runs.capacity = 1;
+            vb->container.runs.runs = runs;
+            runs[0] = min;
+            runs[1] = (uint16_t)rangeSize;
+            vb->cardinality = rangeSize;
             return;
         }
-        vb->container.runs.runs[0] = min;
-        vb->container.runs.runs[1] = (uint16_t)rangeSize;
-        vb->cardinality = rangeSize;
-        return;
+        /* Out of memory for the runs container: add individually below */
     }
 
     /* Otherwise add individually */
